@@ -1,5 +1,7 @@
 package mcrt
 
+import "unsafe"
+
 // WaitGroup models sync.WaitGroup.
 type WaitGroup struct {
 	hist    uint64
@@ -87,5 +89,223 @@ func (o *Once) Do(f func()) {
 	if !o.done {
 		defer func() { o.done = true }()
 		f()
+	}
+}
+
+// Atomic operations (sync/atomic in rewritten code): each variable gets a Mutex of its own for the execution in
+// progress and every operation on it is Lock; plain access; Unlock. That makes the operation a scheduling point, puts
+// it into the state-key histories, and gives the race variant the happens-before edges of Go's sequentially consistent
+// atomics (an operation is ordered after every earlier operation on the same variable).
+type atomicCell struct {
+	p  unsafe.Pointer
+	mu *Mutex
+}
+
+func AtomicEnter(p unsafe.Pointer) *Mutex {
+	s, t := cur()
+	if t.exiting {
+		return nil
+	}
+	var m *Mutex
+	for i := range s.atomics {
+		if s.atomics[i].p == p {
+			m = s.atomics[i].mu
+			break
+		}
+	}
+	if m == nil {
+		m = new(Mutex)
+		s.atomics = append(s.atomics, atomicCell{p, m})
+	}
+	m.Lock()
+	return m
+}
+
+func AtomicLeave(m *Mutex) {
+	if m != nil {
+		m.Unlock()
+	}
+}
+
+// Locker mirrors sync.Locker.
+type Locker interface {
+	Lock()
+	Unlock()
+}
+
+// Cond models sync.Cond: Wait joins the notify list before it releases L (as sync.Cond does), Signal wakes the
+// longest waiter, Broadcast all of them; every wake-up is a buffered hand-off, so it carries the happens-before edge.
+type Cond struct {
+	L       Locker
+	waiters []*Chan[struct{}]
+}
+
+func NewCond(l Locker) *Cond { return &Cond{L: l} }
+
+func (c *Cond) Wait() {
+	_, t := cur()
+	if t.exiting {
+		return
+	}
+	ch := Make[struct{}](1, "cond.wait")
+	c.waiters = append(c.waiters, ch)
+	c.L.Unlock()
+	ch.Recv()
+	c.L.Lock()
+}
+
+func (c *Cond) Signal() {
+	_, t := cur()
+	if t.exiting {
+		return
+	}
+	Yield()
+	if len(c.waiters) > 0 {
+		w := c.waiters[0]
+		c.waiters = c.waiters[1:]
+		w.Send(struct{}{})
+	}
+}
+
+func (c *Cond) Broadcast() {
+	_, t := cur()
+	if t.exiting {
+		return
+	}
+	Yield()
+	ws := c.waiters
+	c.waiters = nil
+	for _, w := range ws {
+		w.Send(struct{}{})
+	}
+}
+
+// Pool models sync.Pool as one shared LIFO free list (the most adversarial of the behaviours sync.Pool allows: an
+// item put by one goroutine is handed to the next Get of any goroutine); Put happens before the Get that returns the item.
+type Pool struct {
+	New   func() interface{}
+	mu    Mutex
+	items []interface{}
+}
+
+func (p *Pool) Get() interface{} {
+	p.mu.Lock()
+	var v interface{}
+	if n := len(p.items); n > 0 {
+		v = p.items[n-1]
+		p.items[n-1] = nil
+		p.items = p.items[:n-1]
+	}
+	p.mu.Unlock()
+	if v == nil && p.New != nil {
+		v = p.New()
+	}
+	return v
+}
+
+func (p *Pool) Put(v interface{}) {
+	if v == nil {
+		return
+	}
+	p.mu.Lock()
+	p.items = append(p.items, v)
+	p.mu.Unlock()
+}
+
+// Map models sync.Map with insertion-ordered keys (Range is deterministic).
+type Map struct {
+	mu   Mutex
+	keys []interface{}
+	vals []interface{}
+}
+
+func (m *Map) find(k interface{}) int {
+	for i := range m.keys {
+		if m.keys[i] == k {
+			return i
+		}
+	}
+	return -1
+}
+
+func (m *Map) Load(k interface{}) (v interface{}, ok bool) {
+	m.mu.Lock()
+	if i := m.find(k); i >= 0 {
+		v, ok = m.vals[i], true
+	}
+	m.mu.Unlock()
+	return
+}
+
+func (m *Map) Store(k, v interface{}) { m.Swap(k, v) }
+
+func (m *Map) Swap(k, v interface{}) (prev interface{}, loaded bool) {
+	m.mu.Lock()
+	if i := m.find(k); i >= 0 {
+		prev, loaded = m.vals[i], true
+		m.vals[i] = v
+	} else {
+		m.keys = append(m.keys, k)
+		m.vals = append(m.vals, v)
+	}
+	m.mu.Unlock()
+	return
+}
+
+func (m *Map) LoadOrStore(k, v interface{}) (actual interface{}, loaded bool) {
+	m.mu.Lock()
+	if i := m.find(k); i >= 0 {
+		actual, loaded = m.vals[i], true
+	} else {
+		m.keys = append(m.keys, k)
+		m.vals = append(m.vals, v)
+		actual = v
+	}
+	m.mu.Unlock()
+	return
+}
+
+func (m *Map) LoadAndDelete(k interface{}) (v interface{}, loaded bool) {
+	m.mu.Lock()
+	if i := m.find(k); i >= 0 {
+		v, loaded = m.vals[i], true
+		nk := make([]interface{}, 0, len(m.keys))
+		nv := make([]interface{}, 0, len(m.vals))
+		for j := range m.keys {
+			if j != i {
+				nk = append(nk, m.keys[j])
+				nv = append(nv, m.vals[j])
+			}
+		}
+		m.keys, m.vals = nk, nv
+	}
+	m.mu.Unlock()
+	return
+}
+
+func (m *Map) Delete(k interface{}) { m.LoadAndDelete(k) }
+
+func (m *Map) CompareAndSwap(k, o, n interface{}) (ok bool) {
+	m.mu.Lock()
+	if i := m.find(k); i >= 0 && m.vals[i] == o {
+		m.vals[i] = n
+		ok = true
+	}
+	m.mu.Unlock()
+	return
+}
+
+func (m *Map) Range(f func(k, v interface{}) bool) {
+	m.mu.Lock()
+	ks := make([]interface{}, len(m.keys))
+	vs := make([]interface{}, len(m.vals))
+	for i := range m.keys {
+		ks[i], vs[i] = m.keys[i], m.vals[i]
+	}
+	m.mu.Unlock()
+	for i := range ks {
+		if !f(ks[i], vs[i]) {
+			return
+		}
 	}
 }
